@@ -44,12 +44,16 @@ def canon_case(inp):
     from synkit.CRN.Topo.automorphism import CRNAutomorphism
     nets = inp["nets"]
     runs = []
-    for cfg in inp["cfgs"]:
+    # ONE hypergraph object per network, analysed under every configuration in turn (in a per-case order):
+    # an answer may depend on the network and the configuration only, not on earlier analyses of the same object
+    built = [crnlib.build(net) for net in nets]
+    cfgs = list(inp["cfgs"])
+    random.Random(core.digest(inp)).shuffle(cfgs)
+    for cfg in cfgs:
         coder, coder2 = gl.Coder(), gl.Coder()
         r = {"cfg": "view=%s,stoich=%s" % ("bipartite" if cfg["rule"] else "species", cfg["stoich"]),
              "view": [], "cg": [], "cgids": [], "naut": [], "orbits": [], "aut_naut": [], "aut_orbits": [], "view_plain": []}
-        for net in nets:
-            H = crnlib.build(net)
+        for net, H in zip(nets, built):
             C = CRNCanonicalizer(H, include_rule=cfg["rule"], include_stoich=cfg["stoich"])
             na, ea = list(C.node_attr_keys), list(C.edge_attr_keys)
             G = C.G
@@ -121,7 +125,7 @@ def run(ctx: core.Ctx) -> None:
     else:
         ctx.exhaustive = True
     core.run_stage(ctx, S("all-small-networks", [fam(n, rng, rng.choice(nets)) for n in nets]))
-    sym = [ring(n) for n in (2, 3, 4, 5)] + [ring(3, 2), crnlib.parse(["A>>B", "A>>C"]), crnlib.parse(["A+B>>C", "C>>A+B"]),
+    sym = [ring(n) for n in (2, 3, 4, 5, 6, 6, 6)] + [ring(3, 2), crnlib.parse(["A>>B", "A>>C"]), crnlib.parse(["A+B>>C", "C>>A+B"]),
                                                crnlib.parse(["A>>B", "B>>A", "C>>D", "D>>C"]), crnlib.parse(["2A>>B", "2C>>B"]),
                                                crnlib.parse(["A+B>>C+D"]), crnlib.parse(["A>>B", "A>>B"])]
     core.run_stage(ctx, S("symmetric-families", [fam(n, rng, rng.choice(sym)) for n in sym for _ in range(2)]))
